@@ -6,6 +6,9 @@ From Verif Require Import Base.Hex Base.Verdict Model.Layout Model.LayoutPrims M
 Import ListNotations.
 Open Scope string_scope.
 
+(* compact literal for long uniform payloads: n copies of the byte b *)
+Definition rep (b : N) (n : N) : bytes := repeat b (N.to_nat n).
+
 Inductive kind :=
 | KRef                                   (* a type of Vanilla.references *)
 | KUpsert (acts : list N)                (* playerinfo.Upsert with this ActionSet (indices in the order the API got them) *)
